@@ -90,7 +90,9 @@ class Monitor:
 
 
 class Engine:
-    def __init__(self, rec, rng, prop, weights=None, monitors=(), gc_plan="default", ref_policy="strong", classes=None, groups=None, second_ws=False, n_ops=15, in_memory_start=False):
+    def __init__(self, rec, rng, prop, weights=None, monitors=(), gc_plan="default", ref_policy="strong", classes=None, groups=None, second_ws=False, n_ops=15, in_memory_start=False, script=None):
+        self.script = list(script or [])
+        self.force_kinds = None
         self.rec, self.rng, self.prop = rec, rng, prop
         self.monitors = list(monitors)
         self.gc_plan, self.ref_policy = gc_plan, ref_policy
@@ -168,10 +170,13 @@ class Engine:
         try:
             for m in self.monitors:
                 m.start(self)
-            for step in range(self.n_ops):
-                kind = self.choose()
+            for step in range(len(self.script) or self.n_ops):
+                if self.script:
+                    kind, self.force_kinds = self.script[step]
+                else:
+                    kind = self.choose()
                 op = {"step": step, "op": kind}
-                self.last_footprint = {"content": set(), "links": set(), "create": False, "delete": set(), "any_type": False}
+                self.last_footprint = {"content": set(), "links": set(), "create": False, "delete": set(), "any_type": False, "types": set()}
                 for m in self.monitors:
                     m.before(self, op)
                 ok = True
@@ -233,19 +238,21 @@ class Engine:
         for k, w in self.weights.items():
             if w <= 0:
                 continue
-            if k in ("mk_group", "mk_object", "reopen", "gc", "listing"):
+            if k in ("mk_group", "mk_object", "reopen", "gc", "listing", "open_again"):
                 avail.append((k, w))
             elif k in ("add_data", "comment", "add_file") and objs:
                 avail.append((k, w))
             elif k in ("set_values",) and any(d.dkind in VALUE_KINDS for d in data):
                 avail.append((k, w))
-            elif k in ("rename", "flag", "remove", "copy", "dup_uid") and (objs or grps or data):
+            elif k in ("rename", "flag", "remove", "copy", "dup_uid", "type_rename") and (objs or grps or data):
                 avail.append((k, w))
             elif k in ("metadata",) and (objs or grps):
                 avail.append((k, w))
             elif k == "move" and (objs or grps) and (len(grps) >= 1):
                 avail.append((k, w))
             elif k in ("move_data", "add_data_fail") and objs:
+                avail.append((k, w))
+            elif k == "pg_add_second" and any(any(m for m in o.pgs.values()) for o in objs):
                 avail.append((k, w))
             elif k == "pg_create_empty" and objs:
                 avail.append((k, w))
@@ -256,6 +263,8 @@ class Engine:
             elif k == "pg_delete" and any(o.pgs for o in objs):
                 avail.append((k, w))
             elif k == "remove_protected" and (objs or data):
+                avail.append((k, w))
+            elif k in ("recreate", "copy_back") and self.ws2 is not None:
                 avail.append((k, w))
             elif k == "copy_out" and self.ws2 is not None and (objs or grps):
                 avail.append((k, w))
@@ -344,6 +353,10 @@ class Engine:
         d.values = canon(exp)
 
     def pick_any(self, kinds=("object", "group", "data")):
+        if self.force_kinds:
+            forced = [n for n in self.model.of_kind(*self.force_kinds) if n.dkind != "auto"]
+            if forced:
+                return self.rng.choice(forced)
         return self.rng.choice([n for n in self.model.of_kind(*kinds)])
 
     def op_rename(self, op):
@@ -367,6 +380,20 @@ class Engine:
         setattr(self.ent(n.uid), flag, val)
         n.flags[flag] = val
 
+    def op_type_rename(self, op):
+        """Rename/describe the (shared) type of an entity: only that type node may change."""
+        n = self.pick_any()
+        e = self.ent(n.uid)
+        t = e.entity_type
+        new = f"type{self.counter}_{self.rng.choice(NAMES)}"
+        self.counter += 1
+        which = self.rng.choice(["name", "description"])
+        op.update(cls=n.cls, target=n.uid, type_uid=str(t.uid), attr=which, value=new)
+        self.last_footprint["types"] = {str(t.uid)}
+        setattr(t, which, new)
+        self.type_edits = getattr(self, "type_edits", {})
+        self.type_edits.setdefault(str(t.uid), {})[which] = new
+
     def op_metadata(self, op):
         n = self.pick_any(("object", "group"))
         if n.cls in NO_METADATA:
@@ -382,6 +409,8 @@ class Engine:
         n = self.pick_any(("object", "group"))
         targets = [self.model.root] + [g.uid for g in self.model.of_kind("group")]
         targets = [t for t in targets if t != n.parent and not self.model.is_descendant(t, n.uid)]
+        if self.rng.random() < 0.15:
+            targets = [n.parent]  # assigning the current parent again is legal and must change nothing
         if not targets:
             raise ExpectedRefusal("no target")
         t = self.rng.choice(targets)
@@ -608,7 +637,9 @@ class Engine:
         assoc = self.rng.choice(sorted({c.assoc for c in cands}))
         cands = [c for c in cands if c.assoc == assoc]
         chosen = self.rng.sample(cands, self.rng.randint(1, min(3, len(cands))))
-        existing = [name for name, mem in o.pgs.items() if mem and self.model.nodes[mem[0]].assoc == assoc] if o.pgs else []
+        # groups with members of the same association, and still-empty groups whatever association they were
+        # created with (the library accepts data of any association into an explicitly created group)
+        existing = [name for name, mem in o.pgs.items() if not mem or self.model.nodes[mem[0]].assoc == assoc] if o.pgs else []
         if existing and self.rng.random() < 0.5:
             name = self.rng.choice(existing)
         else:
@@ -621,6 +652,20 @@ class Engine:
         for c in chosen:
             if c.uid not in mem:
                 mem.append(c.uid)
+
+    def op_pg_add_second(self, op):
+        """Put a data entity that already sits in one property group into a second one."""
+        objs = [x for x in self.model.of_kind("object") if any(m for m in x.pgs.values())]
+        if not objs:
+            raise ExpectedRefusal("no grouped data")
+        o = self.rng.choice(objs)
+        name0 = self.rng.choice(sorted(k for k, m in o.pgs.items() if m))
+        member = self.rng.choice(o.pgs[name0])
+        name = self.new_name("pg")
+        op.update(cls=o.cls, target=o.uid, pg=name, data=[member])
+        self.last_footprint["content"].add("Objects/" + br(o.uid))
+        self.ent(o.uid).add_data_to_group([self.ent(member)], name)
+        o.pgs[name] = [member]
 
     def op_pg_create_empty(self, op):
         o = self.rng.choice(self.model.of_kind("object"))
@@ -727,6 +772,24 @@ class Engine:
         for m in self.monitors:
             m.at_reopen(self)
 
+    def op_open_again(self, op):
+        """Calling open() on a workspace that is already open is tolerated by the library (warning, no-op)."""
+        import warnings as _w
+
+        with _w.catch_warnings():
+            _w.simplefilter("ignore")
+            if self.rng.random() < 0.5:
+                self.ws.open()
+            else:
+                self.refs.clear()
+                with self.ws.open():
+                    pass
+                # the context manager closed it: open again as the user would (entities are re-loaded)
+                self.ws.open()
+                self.refs.clear()
+                self.pending_victims = set()
+                op["via"] = "with"
+
     def op_gc(self, op):
         self.refs.clear()
         n = gc.collect()
@@ -755,6 +818,7 @@ DEFAULT_WEIGHTS = {
     "rename": 1.5,
     "flag": 1.0,
     "metadata": 1.0,
+    "type_rename": 0.5,
     "move": 1.5,
     "move_data": 0.8,
     "add_data_fail": 0.0,
@@ -762,11 +826,13 @@ DEFAULT_WEIGHTS = {
     "remove": 2.0,
     "pg_add": 1.5,
     "pg_create_empty": 0.4,
+    "pg_add_second": 0.4,
     "pg_remove_data": 0.7,
     "pg_delete": 0.5,
     "comment": 0.6,
     "add_file": 0.5,
     "reopen": 1.0,
+    "open_again": 0.3,
     "gc": 0.7,
     "listing": 0.7,
     "dup_uid": 0.0,
